@@ -471,15 +471,205 @@ proof { assert(refined(tm, old, pv(__res@), org, partition@.len() as int)); }
 """),
     ])
 
-create_stub = Fn(F_MIN, 'Minimizer', 'create_from_partition', ret='r', props=P, external_body=True, trusted_reason='TEMPORARY: under construction',
+add_rep = Fn(F_MIN, 'Minimizer', 'add_representative_state', ret='r', props=P, attrs='#[verifier::loop_isolation(false)] #[verifier::allow_complex_invariants]',
+    spec="""
+requires
+    group_id.0 < old(dfa).states@.len(), old(dfa).states@.len() == old(dfa).end_states@.len(),
+    set_nonempty(group@), forall|x: StateID| #[trigger] group@.contains(x) ==> x.0 < end_states@.len(),
+    forall|x: StateID, y: StateID| #![trigger group@.contains(x), group@.contains(y)] group@.contains(x) && group@.contains(y) && end_states@[x.0 as int].0 ==> end_states@[y.0 as int] == end_states@[x.0 as int],
+ensures
+    r.0 == group_id.0,
+    final(dfa).states@.len() == old(dfa).states@.len(), final(dfa).end_states@.len() == old(dfa).end_states@.len(),
+    final(dfa).states@[group_id.0 as int].transitions@.len() == 0,
+    forall|i: int| 0 <= i < old(dfa).states@.len() && i != group_id.0 ==> #[trigger] final(dfa).states@[i] == old(dfa).states@[i],
+    forall|i: int| 0 <= i < old(dfa).states@.len() && i != group_id.0 ==> #[trigger] final(dfa).end_states@[i] == old(dfa).end_states@[i],
+    // accepting iff some member accepts, with that member's token type
+    forall|x: StateID| #[trigger] group@.contains(x) && end_states@[x.0 as int].0 ==> final(dfa).end_states@[group_id.0 as int] == end_states@[x.0 as int],
+    (forall|x: StateID| #[trigger] group@.contains(x) ==> !end_states@[x.0 as int].0) ==> final(dfa).end_states@[group_id.0 as int] == old(dfa).end_states@[group_id.0 as int],
+    final(dfa).terminal_ids == old(dfa).terminal_ids, final(dfa).lookaheads == old(dfa).lookaheads, final(dfa).patterns == old(dfa).patterns,
+""",
+    edits=TRACE + [
+        Ins('body_start', None, """
+broadcast use axiom_stateid_cmp;
+let ghost d_in = *dfa;
+let ghost gid = group_id.0 as int;
+proof { assert(exists|y: StateID| #[trigger] group@.contains(y)); }
+"""),
+        ForLoop('for state_in_group in group.iter() {', it='__it1', into_iter=False, label='add_rep.members',
+                pre='let ghost rem = __it1.remaining(); proof { assert(rem.unref().to_set() == group@); }',
+                body_pre="""
+proof {
+    if __it1.remaining().len() == 0 {
+        assert forall|x: StateID| #[trigger] group@.contains(x) implies seen_upto(rem, rem.len() as int, x) by {
+            assert(rem.unref().to_set().contains(x) <==> rem.unref().contains(x));
+            let i = choose|i: int| 0 <= i < rem.unref().len() && rem.unref()[i] == x;
+            assert(*rem[i] == x);
+        }
+        assert forall|x: StateID| #[trigger] seen_upto(rem, rem.len() as int, x) implies group@.contains(x) by {
+            let j = choose|j: int| 0 <= j < rem.len() && j < rem.len() && *#[trigger] rem[j] == x;
+            assert(rem.unref()[j] == x); assert(rem.unref().contains(x)); assert(rem.unref().to_set().contains(x));
+        }
+    }
+    assert(true);
+}
+""", spec="""
+invariant
+    __it1.obeys_prophetic_iter_laws(), __it1.decrease() is Some,
+    rem.unref().to_set() == group@, state_id.0 == gid,
+    __it1.remaining().len() <= rem.len(),
+    forall|q: int| 0 <= q < __it1.remaining().len() ==> #[trigger] __it1.remaining()[q] == rem[rem.len() - __it1.remaining().len() + q],
+    dfa.states == d_in.states, dfa.terminal_ids == d_in.terminal_ids, dfa.lookaheads == d_in.lookaheads, dfa.patterns == d_in.patterns,
+    dfa.current_states == d_in.current_states, dfa.next_states == d_in.next_states,
+    dfa.end_states@.len() == d_in.end_states@.len(),
+    forall|i: int| 0 <= i < d_in.end_states@.len() && i != gid ==> #[trigger] dfa.end_states@[i] == d_in.end_states@[i],
+    forall|x: StateID| #[trigger] seen_upto(rem, rem.len() - __it1.remaining().len(), x) && end_states@[x.0 as int].0 ==> dfa.end_states@[gid] == end_states@[x.0 as int],
+    (forall|x: StateID| #[trigger] seen_upto(rem, rem.len() - __it1.remaining().len(), x) ==> !end_states@[x.0 as int].0) ==> dfa.end_states@[gid] == d_in.end_states@[gid],
+ensures
+    __it1.remaining().len() == 0,
+    forall|x: StateID| #[trigger] group@.contains(x) ==> seen_upto(rem, rem.len() as int, x),
+    forall|x: StateID| #[trigger] seen_upto(rem, rem.len() as int, x) ==> group@.contains(x),
+decreases __it1.decrease()->0
+"""),
+        Ins('after', 'for state_in_group in group.iter() {', """
+let ghost i0 = rem.len() - __it1.remaining().len() - 1;
+proof {
+    assert(state_in_group == rem[i0]);
+    assert(rem.unref()[i0] == *state_in_group);
+    assert(rem.unref().contains(*state_in_group));
+    assert(rem.unref().to_set().contains(*state_in_group));
+    assert(group@.contains(*state_in_group));
+}
+"""),
+        Ins('block_end', 'for state_in_group in group.iter() {', """
+proof {
+    assert forall|x: StateID| #[trigger] seen_upto(rem, i0 + 1, x) && end_states@[x.0 as int].0 implies dfa.end_states@[gid] == end_states@[x.0 as int] by {
+        let j = choose|j: int| 0 <= j < i0 + 1 && j < rem.len() && *#[trigger] rem[j] == x;
+        assert(rem.unref()[j] == x); assert(rem.unref().contains(x)); assert(rem.unref().to_set().contains(x)); assert(group@.contains(x));
+        if j < i0 { assert(seen_upto(rem, i0, x)); }
+    }
+    assert((forall|x: StateID| #[trigger] seen_upto(rem, i0 + 1, x) ==> !end_states@[x.0 as int].0) ==> dfa.end_states@[gid] == d_in.end_states@[gid]) by {
+        if forall|x: StateID| #[trigger] seen_upto(rem, i0 + 1, x) ==> !end_states@[x.0 as int].0 {
+            assert(seen_upto(rem, i0 + 1, *state_in_group));
+            assert forall|x: StateID| #[trigger] seen_upto(rem, i0, x) implies !end_states@[x.0 as int].0 by { let j = choose|j: int| 0 <= j < i0 && j < rem.len() && *#[trigger] rem[j] == x; assert(seen_upto(rem, i0 + 1, x)); }
+        }
+    }
+}
+"""),
+    ])
+
+update_stub = Fn(F_MIN, 'Minimizer', 'update_transitions', props=P, external_body=True, trusted_reason='TEMPORARY: under construction',
+    spec="""
+requires
+    old(dfa).states@.len() == partition@.len(), forall|g: int| 0 <= g < partition@.len() ==> (#[trigger] old(dfa).states@[g]).transitions@.len() == 0,
+    partition@.len() <= u32::MAX, exists|n: int| tm_keys(transitions@, n) && part_ok(pv(partition@), n), all_nonempty(pv(partition@)),
+ensures
+    final(dfa).states@.len() == partition@.len(), q_trans_ok(transitions@, pv(partition@), *final(dfa)),
+    final(dfa).end_states == old(dfa).end_states, final(dfa).terminal_ids == old(dfa).terminal_ids, final(dfa).lookaheads == old(dfa).lookaheads, final(dfa).patterns == old(dfa).patterns,
+""")
+
+create_from_partition = Fn(F_MIN, 'Minimizer', 'create_from_partition', ret='r', props=P, attrs='#[verifier::loop_isolation(false)] #[verifier::allow_complex_invariants]',
     spec="""
 requires
     d_wf(dfa), tm_ok(dfa, transitions@), part_ok(pv(partition@), dfa.states@.len() as int), all_nonempty(pv(partition@)),
-    acc_homog(dfa, pv(partition@)), self_stable(transitions@, pv(partition@)), exists|g: int| in_grp(pv(partition@), g, 0),
+    acc_homog(dfa, pv(partition@)), self_stable(transitions@, pv(partition@)),
 ensures
     minimized(dfa, r), r.states@.len() == partition@.len(),
     r.terminal_ids == dfa.terminal_ids, r.lookaheads == dfa.lookaheads, r.patterns == dfa.patterns,
-""")
+""",
+    edits=TRACE + [
+        Ins('body_start', None, """
+broadcast use axiom_stateid_cmp;
+let ghost d0 = dfa;
+let ghost n = dfa.states@.len() as int;
+let ghost tm = transitions@;
+let ghost p1 = partition@;
+proof { lemma_groups_bounded(pv(p1), n); lemma_groups_nodup(p1, n); }
+"""),
+        Wrap('E6', 'let mut dfa = CompiledDfa {', """
+let __s0 = StateData::new();
+let ghost gs0 = __s0;
+let __e0: (bool, TerminalID) = (false, 0.into());
+let ghost ge0 = __e0;
+let mut dfa = CompiledDfa {""", """};
+proof {
+    assert forall|g: int| 0 <= g < p1.len() implies (#[trigger] dfa.states@[g]).transitions@.len() == 0 by { axiom_cloned_state(gs0, dfa.states@[g]); }
+    assert forall|g: int| 0 <= g < p1.len() implies #[trigger] dfa.end_states@[g] == (false, TerminalID(0)) by { axiom_cloned_end(ge0, dfa.end_states@[g]); }
+}
+""", close_tail=1, why='the repeated elements of the two vec![e; n] are let-bound so that ghost code can name them (E6)'),
+        Replace('E6', 'states: vec![StateData::new(); partition.len()],', 'states: vec![__s0; partition.len()],', why='see above'),
+        Replace('E6', 'end_states: vec![(false, 0.into()); partition.len()],', 'end_states: vec![__e0; partition.len()],', why='see above'),
+        Replace('E3', 'partition.sort_by(|a, b| { $body });', """
+let ghost p_unsorted = partition@;
+let __cl0 = |a: &BTreeSet<StateID>, b: &BTreeSet<StateID>| -> (o: core::cmp::Ordering) ensures o == start_cmp(*a, *b) { $body };
+proof { assert(models_cmp2(__cl0, |x: BTreeSet<StateID>, y: BTreeSet<StateID>| start_cmp(x, y))); }
+partition.sort_by(__cl0);
+let ghost p2 = partition@;
+proof {
+    let gcmp = |x: BTreeSet<StateID>, y: BTreeSet<StateID>| start_cmp(x, y);
+    assert(models_cmp2(__cl0, gcmp));
+    assert(p_unsorted == p1);
+    lemma_perm_part(p1, p2, n);
+    lemma_perm_props(d0, tm, p1, p2);
+    // the group holding state 0 comes first
+    assert(has_grp(pv(p2), 0));
+    let g0 = choose|g0: int| #[trigger] in_grp(pv(p2), g0, 0);
+    if g0 != 0 {
+        assert(gcmp(p2[g0], p2[0]) != core::cmp::Ordering::Less);
+        assert(start_cmp(p2[g0], p2[0]) == core::cmp::Ordering::Less);
+    }
+    assert(in_grp(pv(p2), 0, 0));
+    lemma_groups_bounded(pv(p2), n);
+}
+""", why='closure typed and hoisted (E3); its body is kept verbatim'),
+        Replace('E13', 'for (id, group) in partition.iter().enumerate() { $body }', """
+let mut __i: usize = 0;
+while __i < partition.len()
+    //@label create.representatives
+    invariant
+        0 <= __i <= p2.len(), partition@ == p2, dfa.states@.len() == p2.len(), dfa.end_states@.len() == p2.len(), end_states@ == d0.end_states@,
+        dfa.terminal_ids == d0.terminal_ids, dfa.lookaheads == d0.lookaheads, dfa.patterns == d0.patterns,
+        forall|g: int| 0 <= g < p2.len() ==> (#[trigger] dfa.states@[g]).transitions@.len() == 0,
+        forall|g: int| __i <= g < p2.len() ==> #[trigger] dfa.end_states@[g] == (false, TerminalID(0)),
+        forall|g: int| 0 <= g < __i ==> rep_end_ok(d0, pv(p2), dfa.end_states@, g),
+    decreases p2.len() - __i
+{
+    let id: usize = __i;
+    let group = &partition[__i];
+    __i += 1;
+    let ghost es_in = dfa.end_states@;
+    proof {
+        assert(set_nonempty(pv(p2)[id as int]));
+        assert forall|x: StateID| #[trigger] group@.contains(x) implies x.0 < end_states@.len() by { assert(pv(p2)[id as int].contains(x)); }
+        assert forall|x: StateID, y: StateID| #![trigger group@.contains(x), group@.contains(y)] group@.contains(x) && group@.contains(y) && end_states@[x.0 as int].0 implies end_states@[y.0 as int] == end_states@[x.0 as int] by {
+            assert(StateID(x.0 as int as u32) == x && StateID(y.0 as int as u32) == y);
+            assert(in_grp(pv(p2), id as int, x.0 as int) && in_grp(pv(p2), id as int, y.0 as int));
+        }
+    }
+    $body
+    proof {
+        assert forall|g: int| 0 <= g < id + 1 implies rep_end_ok(d0, pv(p2), dfa.end_states@, g) by {
+            if g < id { assert(rep_end_ok(d0, pv(p2), es_in, g)); assert(dfa.end_states@[g] == es_in[g]); }
+        }
+    }
+}
+""", why='`for (i, x) in v.iter().enumerate() { B }` as an index loop (E13); body kept verbatim'),
+        Ins('before', 'Self::update_transitions(&mut dfa, &partition, transitions);', """
+proof {
+    assert(tm_keys(tm, n)) by {
+        assert forall|s: StateID, cc: CharClassID, t: StateID| #[trigger] tm_edge(tm, s, cc, t) implies t.0 < n by {
+            let k = choose|k: int| 0 <= k < d0.states@[s.0 as int].transitions@.len() && d0.states@[s.0 as int].transitions@[k] == (cc, StateSetID(t.0));
+            assert(d0.states@[s.0 as int].transitions@[k].1.0 < n);
+        }
+    }
+}
+"""),
+        Ins('after_stmt', 'Self::update_transitions(&mut dfa, &partition, transitions);', """
+proof {
+    lemma_quotient_from_parts(d0, tm, pv(p2), dfa);
+    lemma_stable_from_tm(d0, tm, pv(p2));
+}
+"""),
+    ])
 
 minimize = Fn(F_MIN, 'Minimizer', 'minimize', ret='r', props=P, attrs='#[verifier::loop_isolation(false)] #[verifier::allow_complex_invariants]',
     spec="""
@@ -682,7 +872,9 @@ FUNCS = [
     build_sig,
     split_group,
     new_partition,
-    create_stub,
+    add_rep,
+    update_stub,
+    create_from_partition,
     minimize,
 ]
 
@@ -709,7 +901,12 @@ use std::collections::{BTreeMap, BTreeSet};
 #[verifier::external_body]
 pub struct ExFxBuildHasher(rustc_hash::FxBuildHasher);
 #[verifier::external_body] pub struct CompiledLookahead { _private: () }
-''', label='external types; opaque CompiledLookahead'),
+impl<T> std::ops::IndexMut<StateID> for Vec<T> {
+    fn index_mut(&mut self, index: StateID) -> (r: &mut T)
+        ensures *r == old(self)@[index.0 as int], final(self)@ == old(self)@.update(index.0 as int, *final(r))
+    { &mut self[index.0 as usize] }
+}
+''', label='external types; opaque CompiledLookahead; IndexMut<StateID> for Vec<T> (from impl_id!)'),
         Struct(F_DFA, 'StateData', derive=['Clone']),
         Fn(F_DFA, 'StateData', 'new', ret='r', props=P, spec='ensures r.transitions@.len() == 0'),
         Struct(F_DFA, 'CompiledDfa', derive=[]),
